@@ -4,7 +4,7 @@
    partial operation fails on valid use is checked on every operation of every
    explored history. *)
 From Coq Require Import List ZArith.
-From EosV Require Import model.World model.Ops proofs.Misc_p.
+From EosV Require Import model.World model.Ops proofs.Misc_p proofs.Exn_p.
 Import ListNotations.
 
 Theorem C10_rack_append_exn : forall s f k i, exn_in [XType; XValue] (snd (rack_append s f k i)).
@@ -41,6 +41,17 @@ Theorem C10_service_failure_reported : forall x o e,
   snd (step x o) = RExn (XInternal e).
 Proof. exact step_reports_service_failure. Qed.
 
+(* ---- one table for the whole public surface of the model: [documented_call o] lists the exceptions operation
+   o may answer with (the rows are those of eos's doc strings, as harness/eng_impl.ALLOWED has them per call).
+   Every call answers with a value, an exception of its row, or an internal error -- never with an exception of
+   another row. What remains of C10 after this theorem is exactly: no internal error on valid use
+   (C10_md_failure_reported / C10_service_failure_reported say that none is ever masked). ---- *)
+Theorem C10_every_call_answers_within_its_row : forall x o,
+  is_internal (snd (step x o)) = true \/ exn_in (documented_call o) (snd (step x o)).
+Proof. exact step_exn. Qed.
+Theorem C10_base_layer_answers_within_its_row : forall w o, exn_in (documented o) (snd (md_op w o)).
+Proof. exact md_op_exn. Qed.
+
 Example C10_nonvacuous :
   snd (rack_append (empty_world, []) 1 RHigh 7) = RExn XType.
 Proof. reflexivity. Qed.
@@ -59,3 +70,5 @@ Print Assumptions C10_solsys_add_exn.
 Print Assumptions C10_solsys_remove_exn.
 Print Assumptions C10_md_failure_reported.
 Print Assumptions C10_service_failure_reported.
+Print Assumptions C10_every_call_answers_within_its_row.
+Print Assumptions C10_base_layer_answers_within_its_row.
